@@ -433,7 +433,15 @@ func (s *Solver) CheckT(name, query string, wantModel bool, timeout time.Duratio
 			if !s.Keep {
 				os.Remove(file)
 			}
-			first := strings.TrimSpace(strings.SplitN(out.String(), "\n", 2)[0])
+			first := ""
+			for _, ln := range strings.Split(out.String(), "\n") {
+				ln = strings.TrimSpace(ln)
+				if ln == "" || strings.HasPrefix(ln, "WARNING") {
+					continue
+				}
+				first = ln
+				break
+			}
 			ch <- one{be.name, first, out.String(), time.Since(t0).Seconds()}
 		}()
 	}
